@@ -72,3 +72,164 @@ def info_fn(sc):
         col = [a for s in sc.samples for h in sc.haps[f"{s}|{chrom}"] for a in [h[i]]]
         return f"AC={sum(1 for a in col if a == 1)};AN={len(col)}"
     return f
+
+
+# ------------------------------------------------------------------------------------------------
+# round 7: inputs for the option variants (per-sample / per-family / per-chromosome state)
+# ------------------------------------------------------------------------------------------------
+
+def trios():
+    return [fam for fam in NAMES if len(fam) == 3]
+
+
+def ped1_text():
+    """only the first trio (a run in which the numeric sample ids of the family are 0, 1, 2)"""
+    f, m, c = trios()[0]
+    return f"fam0\t{c}\t{f}\t{m}\t0\t1\n"
+
+
+def noisy_vcf(src, dst, seed):
+    """the VCF with wrong genotypes: in about half of the records two members of EVERY trio get another genotype, so
+    that `phase --distrust-genotypes` changes the genotype of several family members in one record"""
+    import random
+    rng = random.Random(seed)
+    flip = {"0/0": "0/1", "0/1": "1/1", "1/1": "0/1"}
+    n = 0
+    with open(src) as f, open(dst, "w") as out:
+        cols = None
+        for line in f:
+            if line.startswith("#CHROM"):
+                cols = line.rstrip("\n").split("\t")
+            if line.startswith("#"):
+                out.write(line)
+                continue
+            c = line.rstrip("\n").split("\t")
+            if rng.random() < 0.5:
+                n += 1
+                for fam in trios():
+                    for s in rng.sample(list(fam), 2):
+                        j = cols.index(s)
+                        c[j] = flip.get(c[j], c[j])
+            out.write("\t".join(c) + "\n")
+    return n
+
+
+def supp_bam(src, dst, seed):
+    """a copy of the BAM in which (a) about a third of the reads have a supplementary alignment (same name and read
+    group, flag 0x800, the alignment of ANOTHER read, usually at another place), (b) runs of three consecutive reads of
+    one read group share a BX tag (linked reads).  Returns (#supplementary, #reads with BX)"""
+    import random, pysam
+    rng = random.Random(seed)
+    with pysam.AlignmentFile(src) as f:
+        header = f.header
+        recs = [r for r in f]
+    out, n_supp, n_bx = [], 0, 0
+    by_rg = {}
+    for r in recs:
+        rg = r.get_tag("RG") if r.has_tag("RG") else ""
+        k = by_rg.setdefault((rg, r.reference_id), [0])
+        if not r.is_unmapped and (k[0] // 3) % 2 == 0:
+            r.set_tag("BX", f"BX{abs(hash_str(rg)) % 1000}-{r.reference_id}-{k[0] // 3}")
+            n_bx += 1
+        k[0] += 1
+    for r in recs:
+        out.append(r)
+        if not r.is_unmapped and rng.random() < 0.33:
+            other = rng.choice(recs)
+            if other.is_unmapped or other.query_name == r.query_name:
+                continue
+            d = other.to_dict()
+            d["name"] = r.query_name
+            d["flag"] = str(int(d["flag"]) | 0x800)
+            s = pysam.AlignedSegment.from_dict(d, header)
+            if r.has_tag("RG"):
+                s.set_tag("RG", r.get_tag("RG"))
+            if r.has_tag("BX"):
+                s.set_tag("BX", r.get_tag("BX"))
+            elif s.has_tag("BX"):
+                s.set_tag("BX", None)
+            out.append(s)
+            n_supp += 1
+    out.sort(key=lambda r: (r.reference_id if r.reference_id >= 0 else 1 << 30, r.reference_start))
+    with pysam.AlignmentFile(dst, "wb", header=header) as f:
+        for r in out:
+            f.write(r)
+    pysam.index(dst)
+    return n_supp, n_bx
+
+
+def hash_str(s):
+    """a hash of a string that does not depend on PYTHONHASHSEED"""
+    h = 0
+    for ch in s:
+        h = (h * 131 + ord(ch)) % 1000003
+    return h
+
+
+# ---- hash seeds that realise different iteration orders of the sets of names a run iterates over -----------------
+
+_PROBE = ("import sys, json\n"
+          "S = json.loads(sys.argv[1])\n"
+          "out = []\n"
+          "for s in S:\n"
+          "    a = set()\n"
+          "    for x in s:\n"
+          "        a.add(x)\n"
+          "    out.append([list(frozenset(s)), list(a), list(set(s) & set(reversed(s)))])\n"
+          "print(json.dumps(out))\n")
+
+
+def probe_orders(name_sets, pool, python, jobs=8):
+    """{seed: [[order of frozenset(list), of a set filled by add, of an intersection] per name set]} for the seeds in pool:
+    the iteration order of a str set is a function of PYTHONHASHSEED, found by asking an interpreter started with it"""
+    import json, os, subprocess
+    from concurrent.futures import ThreadPoolExecutor
+    arg = json.dumps([list(s) for s in name_sets])
+
+    def one(seed):
+        r = subprocess.run([python, "-S", "-c", _PROBE, arg], env=dict(os.environ, PYTHONHASHSEED=str(seed)),
+                           capture_output=True, text=True, timeout=120)
+        return seed, json.loads(r.stdout) if r.returncode == 0 else None
+    with ThreadPoolExecutor(max_workers=jobs) as ex:
+        return {seed: o for seed, o in ex.map(one, pool) if o is not None}
+
+
+def _features(orders):
+    """order features of one seed, each with the weight 1 / (number of features of its set): relative order of every pair,
+    first and last element, per construction"""
+    feats = {}
+    for i, per_set in enumerate(orders):
+        fs = []
+        for c, order in enumerate(per_set):
+            if len(order) < 2:
+                continue
+            fs.append((i, c, "first", order[0]))
+            fs.append((i, c, "last", order[-1]))
+            for a in range(len(order)):
+                for b in range(a + 1, len(order)):
+                    fs.append((i, c, order[a], order[b]))
+        for f in fs:
+            feats[f] = 1.0 / len(fs)
+    return feats
+
+
+def covering_seeds(probed, set_ids, n, first="0"):
+    """n hash seeds (as strings), beginning with `first`, chosen greedily from the probed ones so that the name sets
+    `set_ids` (indices into the probed name sets) are iterated in as many different orders as possible: every set counts
+    the same, whatever its size.  Deterministic."""
+    feats = {str(s): _features([o[i] for i in set_ids]) for s, o in probed.items()}
+    chosen = [first]
+    covered = set(feats.get(first, {}))
+    while len(chosen) < n:
+        best, gain = None, -1.0
+        for s in sorted(feats, key=lambda x: int(x)):
+            if s in chosen:
+                continue
+            g = sum(w for f, w in feats[s].items() if f not in covered)
+            if g > gain + 1e-12:
+                best, gain = s, g
+        if best is None:
+            break
+        chosen.append(best)
+        covered |= set(feats[best])
+    return chosen
